@@ -2,7 +2,7 @@
    Definitions only. *)
 From Coq Require Import ZArith List Bool.
 Import ListNotations.
-From Osmo Require Import Base.DecModel C04.Common C04.Lp Gen.C04_consts.
+From Osmo Require Import Base.DecModel C04.Common C04.Lp C04.MathLib Gen.C04_consts.
 Open Scope Z_scope.
 
 Record spool := mkS { s_res : list Z; s_sf : list Z; s_shares : Z }.
@@ -45,6 +45,222 @@ Definition s_exit (p : spool) (sh exit_fee : Z) : res (list Z * spool) :=
   do s' <- int_check (s_shares p - sh);
   Ok (coins, mkS r' (s_sf p) s').
 
+(* ---------- amm.go: the CFMM ---------- *)
+(* cfmmConstantMultiNoVY: x (x^2 + y^2 + w) *)
+Definition cfmm_novy (x y w : Z) : res Z :=
+  if (x <=? 0) || (y <=? 0) || (w <? 0) then Err e_bad_reserves else
+  do x2 <- bc_mul x x;
+  do y2 <- bc_mul y y;
+  do s1 <- bc_add x2 y2;
+  do s2 <- bc_add s1 w;
+  bc_mul x s2.
+(* cfmmConstantMultiNoV: x y (x^2 + y^2 + w) *)
+Definition cfmm_nov (x y w : Z) : res Z := do k <- cfmm_novy x y w; bc_mul k y.
+
+Fixpoint sum_squares (rem : list Z) (acc : Z) : res Z :=
+  match rem with
+  | [] => Ok acc
+  | r :: rest => do r2 <- bc_mul r r; do a <- bc_add acc r2; sum_squares rest a
+  end.
+
+(* targetKCalculator *)
+Definition target_k (x0 y0 w yf : Z) : res Z :=
+  do start_k <- cfmm_nov x0 y0 w;
+  do yf_removed <- bc_quo start_k yf;
+  do yf2 <- bc_mul yf yf;
+  do i1 <- bc_add yf2 w;
+  do x02 <- bc_mul x0 x0;
+  do inner <- bc_add i1 x02;
+  do const <- bc_mul inner x0;
+  bc_sub yf_removed const.
+
+(* iterKCalculator: coefficients once, then the Horner evaluation per probe *)
+Definition iter_k_coeffs (x0 w yf : Z) : res (Z * Z) :=
+  do quad <- bc_mul_int x0 3;
+  do q1 <- bc_mul quad x0;
+  do q2 <- bc_add q1 w;
+  do yf2 <- bc_mul yf yf;
+  do q3 <- bc_add q2 yf2;
+  Ok (quad, - q3).
+Definition iter_k (x0 quad lin : Z) (xf : Z) : res Z :=
+  do x_out <- bc_sub x0 xf;
+  do r1 <- bc_add (- x_out) quad;
+  do r2 <- bc_mul r1 x_out;
+  do r3 <- bc_add r2 lin;
+  bc_mul r3 x_out.
+
+(* deriveUpperLowerXFinalReserveBounds *)
+Definition derive_bounds (x y w yf : Z) : res (Z * Z) :=
+  do k0 <- cfmm_nov x yf w;
+  do k <- cfmm_nov x y w;
+  if (k0 =? 0) || (k =? 0) then Err e_k_zero else
+  do k_ratio <- bc_quo k0 k;
+  if k_ratio <? P36 then
+    do q <- bc_quo x k_ratio;
+    Ok (x, bd_ceil q)                                   (* Ceil: no bit-length assertion *)
+  else if P36 <? k_ratio then Ok (0, x)
+  else Ok (x, x).
+
+Definition ss_tolerance : err_tolerance := mkTol None (Some ss_mul_tolerance) RoundUp.
+
+(* solveCFMMBinarySearchMulti: x_out for an input y_in (negative: tokens leave y) *)
+Definition solve_cfmm_multi (x y w y_in : Z) : res Z :=
+  if (x <=? 0) || (y <=? 0) || (w <? 0) then Err e_bad_reserves else
+  if y <=? Z.abs y_in then Err e_input_too_large else
+  do yf <- bc_add y y_in;
+  do '(lo, hi) <- derive_bounds x y w yf;
+  do tk <- target_k x y w yf;
+  do '(quad, lin) <- iter_k_coeffs x w yf;
+  do x_est <- binary_search_bigdec (iter_k x quad lin) lo hi tk ss_tolerance ss_max_iterations;
+  do x_out <- bc_sub x x_est;
+  if x <=? Z.abs x_out then Err e_output_too_big else Ok x_out.
+
+Definition solve_cfmm (x y : Z) (rem : list Z) (y_in : Z) : res Z :=
+  do w <- sum_squares rem 0;
+  solve_cfmm_multi x y w y_in.
+
+(* ---------- pool.go: scaling ---------- *)
+(* DivIntByU64ToBigDec *)
+Definition scale_down (amt sf : Z) : res Z := if sf =? 0 then Err e_div_zero else Ok (Z.quot (amt * P36) sf).   (* QuoInt64 *)
+Definition scale_up (amt sf : Z) : res Z := bc_quo_round_up (amt * P36) (sf * P36).                               (* QuoRoundUp(NewBigDec(u)) *)
+(* getDescaledPoolAmt: amount.MulInt64(sf).Dec()  (Dec truncates to 18 decimals, no range check) *)
+Definition descale (amt sf : Z) : res Z := do m <- bc_mul_int amt sf; Ok (bd_to_dec m).
+
+Fixpoint remove_two {A} (l : list A) (i j : nat) (k : nat) : list A :=
+  match l with
+  | [] => []
+  | x :: r => if (k =? i)%nat || (k =? j)%nat then remove_two r i j (S k) else x :: remove_two r i j (S k)
+  end.
+(* scaledSortedPoolReserves(first = i, second = j, RoundDown): [scaled_i; scaled_j; the others in pool order] *)
+Definition scaled_sorted_reserves (p : spool) (i j : nat) : res (list Z) :=
+  let n := s_n p in
+  if negb ((i <? n)%nat && (j <? n)%nat) || (i =? j)%nat then Err e_shape else
+  if existsb (fun sf => negb ((0 <? sf) && (sf <? 2 ^ 63))) (s_sf p) then Err e_other_misconfigured else   (* validateScalingFactors *)
+  let pairs := zip (s_res p) (s_sf p) in
+  let order := nth i pairs (0, 1) :: nth j pairs (0, 1) :: remove_two pairs i j 0 in
+  mapM (fun rs => scale_down (fst rs) (snd rs)) order.
+
+Definition one_minus (fee : Z) : Z := (P18 - fee) * P18.               (* BigDecFromDecMut(OneDec().SubMut(spreadFactor)) *)
+
+(* calcOutAmtGivenIn -> Dec; CalcOutAmtGivenIn truncates *)
+Definition s_calc_out_given_in (p : spool) (i j : nat) (a fee : Z) : res Z :=
+  do rs <- scaled_sorted_reserves p i j;
+  match rs with
+  | in_supply :: out_supply :: rem =>
+    do tin <- scale_down a (nthZ (s_sf p) i);
+    do amm_in <- bc_mul tin (one_minus fee);
+    do cfmm_out <- solve_cfmm out_supply in_supply rem amm_in;
+    do out_dec <- descale cfmm_out (nthZ (s_sf p) j);
+    let out_int := Z.quot out_dec P18 in
+    if out_int <=? 0 then Err e_not_positive else Ok out_int
+  | _ => Err e_shape
+  end.
+
+Definition s_calc_in_given_out (p : spool) (i j : nat) (o fee : Z) : res Z :=   (* token i out, token j in *)
+  do rs <- scaled_sorted_reserves p j i;
+  match rs with
+  | in_supply :: out_supply :: rem =>
+    do tout <- scale_up o (nthZ (s_sf p) i);
+    do cfmm_in <- solve_cfmm in_supply out_supply rem (- tout);
+    do in_amt <- bc_quo_round_up (- cfmm_in) (one_minus fee);
+    do in_dec <- descale in_amt (nthZ (s_sf p) j);
+    do c <- dc_ceil in_dec;
+    let in_int := Z.quot c P18 in
+    if in_int <=? 0 then Err e_not_positive else Ok in_int
+  | _ => Err e_shape
+  end.
+
+(* updatePoolLiquidityForSwap: Coins.Add(in).Sub(out); a reserve may neither go negative nor vanish *)
+Definition s_update_for_swap (p : spool) (i j : nat) (a_in a_out : Z) : res spool :=
+  let ni := nthZ (s_res p) i + a_in in
+  let nj := nthZ (s_res p) j - a_out in
+  if nj <? 0 then Err e_neg_coin else
+  if (nj =? 0) || (ni =? 0) then Err e_other_misconfigured else     (* "changed number of tokens in pool" *)
+  do ni' <- int_check ni;
+  Ok (mkS (set_nth (set_nth (s_res p) i ni') j nj) (s_sf p) (s_shares p)).
+
+Definition s_swap_out_given_in (p : spool) (i j : nat) (a fee : Z) : res (Z * spool) :=
+  if negb (i <? s_n p)%nat then Err e_shape else                    (* Coins.Add of a foreign denom changes the count: count mismatch error *)
+  do _ <- validate_pool_liquidity (set_nth (s_res p) i (nthZ (s_res p) i + a)) (s_sf p);
+  do out <- s_calc_out_given_in p i j a fee;
+  do p' <- s_update_for_swap p i j a out;
+  Ok (out, p').
+
+Definition s_swap_in_given_out (p : spool) (i j : nat) (o fee : Z) : res (Z * spool) :=
+  do tin <- s_calc_in_given_out p i j o fee;
+  do _ <- validate_pool_liquidity (set_nth (s_res p) j (nthZ (s_res p) j + tin)) (s_sf p);
+  do p' <- s_update_for_swap p j i tin o;
+  Ok (tin, p').
+
+(* ---------- single-asset join by binary search (cfmm_common.BinarySearchSingleAssetJoin) ---------- *)
+(* SwapAllCoinsToSingleAsset: swap every exited coin (denom order, zero = absent) into token i at zero spread factor *)
+Fixpoint swap_all_to (p : spool) (i : nat) (coins : list Z) (k : nat) (acc : Z) : res Z :=
+  match coins with
+  | [] => Ok acc
+  | c :: rest =>
+    if (k =? i)%nat || (c =? 0) then swap_all_to p i rest (S k) acc else
+    do '(out, p') <- s_swap_out_given_in p k i c 0;
+    do acc' <- int_check (acc + out);
+    swap_all_to p' i rest (S k) acc'
+  end.
+
+(* estimateCoinOutGivenShares *)
+Definition estimate_coin_out (p : spool) (i : nat) (a shares_in : Z) : res Z :=
+  do p1 <- s_update_for_join p (set_nth (repeat 0 (s_n p)) i a) shares_in;
+  do '(exited, p2) <- s_exit p1 shares_in 0;
+  swap_all_to p2 i exited 0 (nthZ exited i).
+
+Definition join_tolerance : err_tolerance := mkTol (Some P18) None RoundDown.
+
+Definition binary_search_single_asset_join (p : spool) (i : nat) (a : Z) : res Z :=
+  let existing := nthZ (s_res p) i in
+  do m <- int_check (s_shares p * a);
+  if existing =? 0 then Err e_div_zero else
+  do c <- dc_ceil (Z.quot (m * P18) existing);
+  let upper := Z.quot c P18 in
+  binary_search_int (estimate_coin_out p i a) 0 upper a join_tolerance join_max_iterations.
+
+(* singleAssetJoinSpreadFactorRatio: 1 - (scaled reserve of the input token / sum of scaled reserves).Dec() *)
+Fixpoint sum_bigdec (l : list Z) (acc : Z) : res Z :=
+  match l with
+  | [] => Ok acc
+  | x :: r => do a <- bc_add acc x; sum_bigdec r a
+  end.
+Definition s_join_spread_factor_ratio (p : spool) (i : nat) : res Z :=
+  let j := if (i =? 0)%nat then 1%nat else 0%nat in      (* PoolLiquidity[0], or [1] when [0] is the input token *)
+  do rs <- scaled_sorted_reserves p i j;
+  do tot <- sum_bigdec rs 0;
+  do ratio <- bc_quo (nthZ rs 0) tot;
+  dc_sub P18 (bd_to_dec ratio).
+
+Definition s_calc_single_asset_join_shares (p : spool) (i : nat) (a fee : Z) : res Z :=
+  do ratio <- s_join_spread_factor_ratio p i;
+  do fr <- dc_mul fee ratio;
+  do one_minus_sf <- dc_sub P18 fr;
+  do af <- dc_mul (a * P18) one_minus_sf;
+  binary_search_single_asset_join p i (Z.quot af P18).
+
+Fixpoint first_nonzero (l : list Z) (k : nat) : nat :=
+  match l with [] => k | x :: r => if x =? 0 then first_nonzero r (S k) else k end.
+
+(* joinPoolSharesInternal (mutating; CalcJoinPoolShares runs it on a copy) *)
+Definition s_join_internal (p : spool) (amts : list Z) (fee : Z) : res (Z * list Z * spool) :=
+  let n := s_n p in
+  if has_foreign n amts then Err e_shape else
+  let A := known_part n amts ++ repeat 0 (n - length (known_part n amts)) in
+  do '(ns, joined) <-
+    (if (count_nonzero A =? 1)%nat && (1 <? sumZ A) then
+       let idx := first_nonzero A 0 in
+       do s <- s_calc_single_asset_join_shares p idx (nthZ A idx) fee;
+       Ok (s, A)
+     else if negb (count_nonzero A =? n)%nat then Err e_shape
+     else
+       do '(s, rem) <- maximal_exact_ratio_join (s_res p) (s_shares p) A;
+       Ok (s, sub_vec A rem));
+  do p' <- s_update_for_join p joined ns;
+  do _ <- validate_pool_liquidity (s_res p') (s_sf p');
+  Ok (ns, joined, p').
+
 Definition s_step (fee exit_fee : Z) (p : spool) (o : op) : Z * list Z * spool :=
   let n := s_n p in
   let fail e := (e, repeat 0 (nres n o), p) in
@@ -53,5 +269,11 @@ Definition s_step (fee exit_fee : Z) (p : spool) (o : op) : Z * list Z * spool :
   | OCalcJoinNoSwap amts => match s_calc_join_no_swap p amts with Ok (ns, j) => (0, ns :: j, p) | Err e => fail e end
   | OExit sh => match s_exit p sh exit_fee with Ok (c, p') => (0, c, p') | Err e => fail e end
   | OCalcExit sh => match s_calc_exit p sh exit_fee with Ok c => (0, c, p) | Err e => fail e end
+  | OSwapOut i j a => match s_swap_out_given_in p i j a fee with Ok (o, p') => (0, [o], p') | Err e => fail e end
+  | OCalcOut i j a => match s_calc_out_given_in p i j a fee with Ok o => (0, [o], p) | Err e => fail e end
+  | OSwapIn i j a => match s_swap_in_given_out p i j a fee with Ok (o, p') => (0, [o], p') | Err e => fail e end
+  | OCalcIn i j a => match s_calc_in_given_out p i j a fee with Ok o => (0, [o], p) | Err e => fail e end
+  | OJoin amts => match s_join_internal p amts fee with Ok (ns, _, p') => (0, [ns], p') | Err e => fail e end
+  | OCalcJoin amts => match s_join_internal p amts fee with Ok (ns, j, _) => (0, ns :: j, p) | Err e => fail e end
   | _ => fail e_unsupported
   end.
